@@ -58,10 +58,12 @@ def R_B(old, new):
     from abtem.measurements import DiffractionPatterns
     rng = np.random.default_rng(0)
     A = rng.random((2,) + tuple(OLD)).astype(np.float64) + 0.1
+    if all(f'a_{i}_{j}_{k}' in V for i, j, k in np.ndindex(A.shape)):  # the solver's pattern contents
+        A = np.array([[[float(V[f'a_{i}_{j}_{k}']) for k in range(A.shape[2])] for j in range(A.shape[1])] for i in range(A.shape[0])], dtype=np.float64)
     dp = DiffractionPatterns(A, sampling=(0.5, 0.7), fftshift=True, ensemble_axes_metadata=[__import__('abtem').core.axes.OrdinalAxis(values=(0, 1))], metadata={'energy': 100e3})
     out = dp.interpolate(gpts=tuple(NEW))
     t0 = A.sum((-2, -1)); t1 = np.asarray(out.array).sum((-2, -1))
-    if out.shape[-2:] != tuple(NEW) or np.abs(t1 - t0).max() > 1e-6 * t0.max(): bad, why = True, f"interpolate {OLD}->{NEW}: totals {t0} -> {t1}"
+    if out.shape[-2:] != tuple(NEW) or np.abs(t1 - t0).max() > 1e-5 * t0.max(): bad, why = True, f"interpolate {OLD}->{NEW}: totals {t0} -> {t1}"
 """, OLD=tuple(old), NEW=tuple(new))
 
 
@@ -144,11 +146,13 @@ def R_P(form):
     from abtem.core.axes import OrdinalAxis
     rng = np.random.default_rng(0)
     A = rng.random((2, 3, 3)).astype(np.float64) + 0.1
+    if all(f'a_{i}_{j}_{k}' in V for i, j, k in np.ndindex(A.shape)):  # the solver's pattern contents
+        A = np.array([[[float(V[f'a_{i}_{j}_{k}']) for k in range(3)] for j in range(3)] for i in range(2)], dtype=np.float64)
     dp = DiffractionPatterns(A, sampling=(0.5, 0.75), fftshift=True, ensemble_axes_metadata=[OrdinalAxis(values=(0, 1))], metadata={'energy': 100e3})
     try:
         out = dp.interpolate(**KW)
         t0 = A.sum((-2, -1)); t1 = np.asarray(out.array).sum((-2, -1))
-        if np.abs(t1 - t0).max() > 1e-6 * t0.max(): bad, why = True, f"interpolate({KW}): totals {t0} -> {t1}"
+        if np.abs(t1 - t0).max() > 1e-5 * t0.max(): bad, why = True, f"interpolate({KW}): totals {t0} -> {t1}"
     except Exception as ex:
         bad, why = True, f"interpolate({KW}) raises {ex!r} although this way of giving the target grid is documented"
 """, KW=FORMS[form])
